@@ -435,6 +435,31 @@ def run_impl_all(prop, cases, timeout=20.0):
     return out
 
 
+def run_impl_fresh(prop, cases, timeout=20.0):
+    """run prop.run_impl on every case, each in a freshly forked child of this (pristine) process: no state left by earlier
+    calls can reach it.  Used by the history-independence stream of run_check."""
+    global _PROP
+    _PROP = prop
+    import_impl()
+    out = [None] * len(cases)
+    if not cases:
+        return out
+    ctx = mp.get_context('fork')
+    pool = ctx.Pool(min(JOBS, 8), initializer=_init_worker, maxtasksperchild=1)
+    try:
+        for i, r, err in pool.imap(_run_one, [(i, c, timeout) for i, c in enumerate(cases)], chunksize=1):
+            if err == 'timeout':
+                out[i] = prop.on_timeout(cases[i])
+            elif err:
+                raise HarnessError('run_impl (fresh process) failed on case %d: %s' % (i, err))
+            else:
+                out[i] = r
+    finally:
+        pool.close()
+        pool.join()
+    return out
+
+
 _IMPORTED = False
 
 
@@ -624,6 +649,27 @@ def run_check(prop, tier, seed, replay=None):
         disagree = [(c, code) for c, code in zip(enriched, codes) if decode(code)[0] in (1, 4) and decode(code)[1] == 0]
         known = [k for k in load_known() if k.get('property') == pid and k.get('status', 'open') == 'open']
 
+        # ---- 2b. history independence (every model function is a pure function of its inputs; the implementation must be
+        # one too): a sample of the cases is re-run, each in a freshly forked child, and what the judge would see (the emitted
+        # case term: implementation outputs and oracle values) must be identical to what the long-lived worker produced after
+        # serving other cases.  A difference is judged like any other case; if neither variant falsifies the predicate it is
+        # still reported (the implementation does not correspond to any function of its inputs).
+        hist = {'sampled': 0, 'differ': 0}
+        hist_diff = []
+        if not replay and getattr(prop, 'history_check', True) and not os.environ.get('VERIF_NO_HISTORY') and len(enriched) == len(cases):
+            k = min(len(cases), {'quick': 48, 'thorough': 240}.get(gen_tier, 48))
+            idx = sorted(random.Random(seed + 17).sample(range(len(cases)), k))
+            fresh = run_impl_fresh(prop, [cases[i] for i in idx], timeout=getattr(prop, 'timeout', 20.0))
+            hist['sampled'] = k
+            pairs = [(i, f) for i, f in zip(idx, fresh) if prop.emit(f) != prop.emit(enriched[i])]
+            hist['differ'] = len(pairs)
+            if pairs:
+                codes_f = coq_eval(prop.judge_module, [prop.emit(f) for _, f in pairs], workdir, shard=getattr(prop, 'shard', 250), tag='fresh')
+                for (i, f), cf in zip(pairs, codes_f):
+                    if decode(cf)[0] != 6 and decode(cf)[1] != 0:
+                        bad_pred.append((f, cf))
+                    hist_diff.append((i, f, cf))
+
         def classify(c):
             key = prop.finding_key(c) if hasattr(prop, 'finding_key') else None
             for k in known:
@@ -688,6 +734,13 @@ def run_check(prop, tier, seed, replay=None):
                                         why='proof obligation no longer checks: %s' % '; '.join(map(str, what))[:3000],
                                         broken='; '.join(map(str, what))[:500])
                 violations.append((path, ' no-failing-input-found'))
+        if hist_diff and not violations:
+            i, f, cf = hist_diff[0]
+            path = write_replay(prop, f, cf, workdir,
+                                why='history dependence: the implementation\'s observable behaviour on this case differs between a freshly started process and a '
+                                    'process that had already served other calls (%d of %d sampled cases differ); neither variant falsifies the predicate' % (len(hist_diff), hist['sampled']),
+                                broken='correspondence %s: the implementation is not a function of its inputs' % prop.judge_module)
+            violations.append((path, ' no-failing-input-found'))
         elif replay and disagree and not violations:
             path = write_replay(prop, disagree[0][0], disagree[0][1], workdir, why='replayed case still disagrees', broken='correspondence')
             violations.append((path, ' no-failing-input-found'))
@@ -721,6 +774,7 @@ def run_check(prop, tier, seed, replay=None):
             'histograms': stats['hist'],
             'known_findings_seen': sorted(seen_known.keys()),
             'anchor_files_changed': changed_anchors, 'sample_budget': gen_tier,
+            'history_independence': hist,
         }
         cov.update(extra_info.get('coverage', {}))
         ev = {
